@@ -24,8 +24,10 @@ inductive C11Guard where
   | none
   deriving DecidableEq, Repr
 
-/-- one access site: object `pkg.Type.field` (or `pkg.var`), the function it occurs in, write?, guard -/
+/-- one access site: numeric object id (rank of the object name in the table), object `pkg.Type.field` (or
+`pkg.var`), the function it occurs in, write?, guard -/
 structure C11LockRow where
+  oid : Nat
   obj : String
   method : String
   write : Bool
@@ -36,5 +38,20 @@ def C11LockRow.guarded (r : C11LockRow) : Bool :=
   match r.guard with
   | .none => false
   | _ => true
+
+def C11LockRow.frozen (r : C11LockRow) : Bool :=
+  match r.guard with
+  | .frozen => true
+  | _ => false
+
+/-- some access site of object `o` relies on the object being frozen after set-up -/
+def c11ObjFrozen (tbl : List C11LockRow) (o : Nat) : Bool := tbl.any fun r => r.oid == o && r.frozen
+
+/-- the row is consistent with ONE sharing class for its object: it is guarded; and if any site of the object relies
+on it being frozen, then this site is a read (the object is `sharedRO`), else this site is synchronised -/
+def c11RowOk (tbl : List C11LockRow) (r : C11LockRow) : Bool :=
+  r.guarded && (if c11ObjFrozen tbl r.oid then !r.write else !r.frozen)
+
+def c11TableOk (tbl : List C11LockRow) : Bool := tbl.all (c11RowOk tbl)
 
 end Pandora.Go
